@@ -294,6 +294,17 @@ class StoreRun:
                 raise InjectedIOError(28, "injected: no space left on device while writing attribute %r" % name)
 
         self.sim.hooks["attr"] = attr_hook
+        self._flush_count = 0
+        f10 = fault["flush"] if fault is not None and fault.get("kind") == "F10" else None
+
+        def flush_hook():
+            k = self._flush_count
+            self._flush_count += 1
+            if k == f10:
+                self.fired("F10")
+                raise InjectedIOError(5, "injected: input/output error while flushing buffered data")
+
+        self.sim.hooks["flush"] = flush_hook
         target = fault["open"] if fault is not None and fault.get("kind") == "F4" else None
         width = fault.get("width", 1) if target is not None else 0
 
@@ -354,6 +365,7 @@ class StoreRun:
             self.sim.hooks.pop("close", None)
             self.sim.hooks.pop("task", None)
             self.sim.hooks.pop("attr", None)
+            self.sim.hooks.pop("flush", None)
             try:
                 self.sim.drain()
             except Exception:
@@ -362,7 +374,7 @@ class StoreRun:
             # process alive: a lock it leaked stays held for whatever the process does next.
             # Only an interrupt/kill (F3), a success or a scheduling verdict resets the lock.
             leak_matters = (exc is not None and fault is not None and
-                            fault.get("kind") in ("F0", "F1", "F2", "F4", "F6", "F9") and
+                            fault.get("kind") in ("F0", "F1", "F2", "F4", "F6", "F9", "F10") and
                             exc[0] not in ("SimDeadlock", "StepLimit"))
             if seams.SIMLOCK.owner is not None:
                 self.stat("lock-held-after-op")
@@ -688,7 +700,7 @@ class StoreRun:
             for prop, oracle, detail in self._verify(fs, fids, quick=False):
                 self.violate(prop, oracle, detail)
         # C13 O-fail, stated directly on the disk
-        if fault is not None and fault.get("kind") in ("F0", "F1", "F2", "F3", "F4", "F6", "F9") and dest:
+        if fault is not None and fault.get("kind") in ("F0", "F1", "F2", "F3", "F4", "F6", "F9", "F10") and dest:
             fid, path = dest
             node = fs.lookup(fid, path) if fid in fs.files else None
             complete = node is not None and isinstance(node.coll, Coll)
@@ -1946,7 +1958,7 @@ def _op_scool(self, op):
             self.stat("scool-appended-to-scool")
         elif root.coll is not None or root.dirty or "cells" in root.children or root.tag:
             raise Skip("append a scool only to a file whose root is free")
-    self._arm_open_fault(fault if fault and fault.get("kind") == "F4" else None)
+    self._arm_open_fault(fault if fault and fault.get("kind") in ("F4", "F10") else None)
     self._arm_snapshots(fid)
     exc, tracer = self._call(lambda: cooler.create_scool(fpath, bins_arg, pix, **kw), fault)
 
